@@ -2,6 +2,7 @@
 template and Hash: header, the cleartext branch of PGPMessage.parse, the CanonicalDocument branch of hashdata, PGPKey.sign /
 verify on cleartext messages) against the extracted model (Model/Cleartext.v + Model/Armor.v), the RFC 4880 section 7
 transcription (Spec/Rfc4880_cleartext.v) and an independent signer / verifier built on `cryptography` + hashlib."""
+from datetime import timedelta
 import ast, base64, hashlib, inspect, itertools, re, textwrap, warnings
 from .common import Driver, Batch, hx, unhx, hn, unhn, outcome, load_repo
 from .c10 import pin_source, check_pins as c10_pins, ref_crc24, PIN_PARSE_HEAD
@@ -436,6 +437,31 @@ def one_flow(ctx, pgpy, d, keys, t, signers, hs, hdrs, T0, replaying=False):
     elif cl['nonascii'] or cl['finalcr']:
         if cl['finalcr'] or len(t) < 30:
             fail('roundtrip', 'defect class predicted a failure but the round trip works: characterisation wrong')
+    # -- a message READ BACK and then countersigned by a further signer with another digest: written again, the Hash: header names
+    #    the digests of ALL signatures now on it (GnuPG refuses a signature whose digest the header does not announce)
+    if res[0] == 'ok' and good and len(signers) >= 1 and not cl['nonascii']:
+        others = [h for h in ('SHA512', 'SHA384', 'SHA224', 'SHA256') if h not in hs]
+        if others:
+            kn2 = signers[-1]
+            with warnings.catch_warnings():
+                warnings.simplefilter('ignore')
+                def _counter():
+                    mm = m2
+                    mm |= keys[kn2].sign(mm, created=T0 + timedelta(seconds=1), hash=getattr(HashAlgorithm, others[0]))
+                    return str(mm), mm
+                o4 = outcome(_counter)
+            ctx.case('countersign', (t, tuple(signers), tuple(hs), others[0]))
+            if o4[0] != 'ok':
+                fail('countersign', 'countersigning a read-back cleartext message raised %s' % o4[1])
+            else:
+                l4 = o4[1][0].split('\n')
+                want4 = set(hs) | {others[0]}
+                got4 = set(l4[1][len('Hash: '):].split(',')) if l4[1].startswith('Hash: ') else None
+                if got4 != want4:
+                    fail('countersign', 'after countersigning a read-back message the Hash: header is %r, the signatures use %s' % (l4[1], sorted(want4)))
+                res4 = read_back(ctx, pgpy, d, keys, o4[1][0], signers)
+                if res4[0] != 'ok' or not all(res4[2]) or res4[1].message != t or len(res4[1].signatures) != len(sigs) + 1:
+                    fail('countersign', 'countersigned message does not read back / verify with all %d signatures' % (len(sigs) + 1))
     # -- reader: CRLF transport
     if not cl['nonascii']:
         s3 = transport_crlf(s)
